@@ -80,7 +80,7 @@ func (caller describeCaller) Call(s *slip.Scope, args slip.List, depth int) slip
 	if di, ok := self.(slip.Describer); ok {
 		b = di.Describe(b, 0, right, ansi)
 	}
-	w := s.Get("*standard-output*").(io.Writer)
+	w := s.WriterVar("*standard-output*", depth)
 	if 0 < len(args) {
 		if 1 < len(args) {
 			slip.MethodArgCountPanic(s, depth, self, ":describe", len(args), 0, 1)
@@ -175,9 +175,8 @@ func (caller printCaller) Call(s *slip.Scope, args slip.List, depth int) slip.Ob
 	// Args should be stream print-depth escape-p. The second two arguments are
 	// ignored.
 	self := s.Get("self").(slip.Instance)
-	so := s.Get("*standard-output*")
-	ss, _ := so.(slip.Stream)
-	w := so.(io.Writer)
+	w := s.WriterVar("*standard-output*", 0)
+	ss, _ := w.(slip.Stream)
 	if 0 < len(args) {
 		var ok bool
 		ss, _ = args[0].(slip.Stream)
